@@ -458,7 +458,7 @@ func RRuneByte(c *core.Ctx) {
 				sink := false
 				for _, r := range core.Referrers(cv) {
 					if call, ok := r.(ssa.CallInstruction); ok {
-						if cal := call.Common().StaticCallee(); cal != nil && (cal.Name() == "WriteByte") {
+						if cal := call.Common().StaticCallee(); cal != nil && (core.BaseName(cal) == "WriteByte") {
 							sink = true
 						}
 						if bi, ok := call.Common().Value.(*ssa.Builtin); ok && bi.Name() == "append" {
